@@ -791,7 +791,12 @@ fn run_str(s: &W3Script, bump: &'static Bump, ck: &mut Ck, stats: &mut Stats) ->
                 parts[i % parts.len()]
             });
             if n % 2 == 0 {
-                b_call(|| it.collect_in::<BString>(bump)).map(|x| {
+                let chars = (0..n).map(|i| {
+                    let _g = harness_scope();
+                    tick(TICK_ITER);
+                    parts[i % parts.len()].chars().next().unwrap()
+                });
+                b_call(|| chars.collect_in::<BString>(bump)).map(|x| {
                     second = Some(x);
                 })
             } else {
